@@ -315,6 +315,21 @@ def _snapshot_import_state():
         seen.add(id(c))
         st["containers"].append((c, type(c)(c)))
 
+    def defaults_of(fn):
+        """mutable default arguments are process-global state too (def f(x, annotations={}): annotations.update(...))"""
+        f = getattr(fn, "__func__", fn)
+        if isinstance(f, property):
+            for g in (f.fget, f.fset, f.fdel):
+                if g is not None:
+                    defaults_of(g)
+            return
+        for d in (getattr(f, "__defaults__", None) or ()):
+            if isinstance(d, _CONTAINERS):
+                container(d)
+        for d in (getattr(f, "__kwdefaults__", None) or {}).values():
+            if isinstance(d, _CONTAINERS):
+                container(d)
+
     for m in _pyro_modules():
         for name, v in list(vars(m).items()):
             if name.startswith("__"):
@@ -322,7 +337,11 @@ def _snapshot_import_state():
             st["attrs"].append((m, name, v))
             if isinstance(v, _CONTAINERS):
                 container(v)
+            elif hasattr(v, "__code__") and getattr(v, "__module__", "") == m.__name__:
+                defaults_of(v)
             elif _is_pyro_class(v) and v.__module__ == m.__name__:
+                for av in list(vars(v).values()):
+                    defaults_of(av)
                 st["class_keys"].append((v, frozenset(vars(v))))
                 for an, av in list(vars(v).items()):
                     if an.startswith("__") and an.endswith("__"):
